@@ -28,7 +28,7 @@ pub const CHECKS: &[CheckDef] = &[
     CheckDef { id: "C09", quick_runs: 15000, thorough_runs: 150000, level: "exploration", title: "mpsc: once, in order, with ordering" },
     CheckDef { id: "C10", quick_runs: 6000, thorough_runs: 60000, level: "exploration", title: "leaks reported exactly" },
     CheckDef { id: "C11", quick_runs: 6000, thorough_runs: 40000, level: "exploration", title: "loom::sync::Arc behaves like std::sync::Arc" },
-    CheckDef { id: "C13", quick_runs: 700, thorough_runs: 5000, level: "fault_enumeration", title: "deterministic and resumable exploration" },
+    CheckDef { id: "C13", quick_runs: 700, thorough_runs: 2500, level: "fault_enumeration", title: "deterministic and resumable exploration" },
     CheckDef { id: "C14", quick_runs: 5000, thorough_runs: 50000, level: "exploration", title: "exploration terminates and never repeats" },
     CheckDef { id: "C16", quick_runs: 1500, thorough_runs: 10000, level: "exploration", title: "iterations and models are isolated" },
     CheckDef { id: "C17", quick_runs: 5000, thorough_runs: 50000, level: "exploration", title: "thread_local! / lazy_static! semantics" },
